@@ -55,7 +55,7 @@ fn unvar_case(long: bool, b: &[u8]) -> Case {
         class: format!("{}:{}", if long { "unvarlong" } else { "unvarint" }, b.len()) }
 }
 
-const STRS: &[&str] = &["", "a", "localhost", "mc.example.org", "日本語", "é✓😀", "{not json", "with space & = ? # % +", "\u{0}\u{7f}", "x"];
+const STRS: &[&str] = &["", "a", "localhost", "mc.example.org", "日本語", "é✓😀", "{not json", "with space & = ? # % +", "\u{0}\u{7f}", "x", "play.example.org\u{0}FML\u{0}", "host\u{0}ip\u{0}uuid", "\u{0}", "a\u{0}b", " padded ", "UPPER.Example.ORG."];
 
 fn gen_str(rng: &mut Rng, max: usize) -> Vec<u8> {
     match rng.below(10) {
@@ -298,7 +298,8 @@ pub fn run(a: &Args) {
         // enum ordinals outside the range: re-encode with the reference encoder
         for (fi, f) in pk.sch.iter().enumerate() {
             if let F::Req(Ty::Enum(lo, hi)) = f {
-                for bad in [lo - 1, hi + 1, -1, i32::MAX, i32::MIN, hi + 128] {
+                // just outside the table, extremes, and ordinals that only become valid when cut to 8 or 16 bits
+                for bad in [lo - 1, hi + 1, -1, i32::MAX, i32::MIN, hi + 128, lo + 256, hi + 256, lo + 512, hi + 65536, lo - 256, i32::MIN + lo] {
                     let mut vals = gen_vals(&mut rng, pk);
                     for v in vals.iter_mut() { if let V::B(b) = v { b.truncate(64); while std::str::from_utf8(b).is_err() { b.pop(); } } }
                     vals[fi] = V::I(i128::from(bad));
